@@ -175,6 +175,7 @@ func c09Flow(c *Chooser, env *Env, o *Outcome, header string, groups []*c09Group
 		}
 		atext, aline, aspans := flowCompose(header, mine)
 		aw := c09World(c09Disk(g.assets, atext, cfg))
+		aw.Opts.Verbose, aw.Opts.Debug = false, false
 		ares := RunLint(aw, nil, RunOpts{Canonical: true})
 		o.addRun(ares.K)
 		if v := runFailure("C09", ares.K); v != nil {
